@@ -102,6 +102,8 @@ fn c08_control_flow_programs() {
         if op == 0xff { p = vec![0x60, 0x00, op, 0x60, 0x01, 0x60, 0x09, 0x55, 0x00]; }
         progs.push((Box::leak(format!("dead code after {name}").into_boxed_str()), p, Some(9), None));
     }
+    // jump onto a 0x5b that is data of a PUSH32 cut short by the end of the code: 60 05 56 00 7f 5b 60 01 60 09 55
+    progs.push(("target inside truncated push data", vec![0x60, 0x05, 0x56, 0x00, 0x7f, 0x5b, 0x60, 0x01, 0x60, 0x09, 0x55], Some(9), None));
     // both branches of JUMPI explored: CALLDATASIZE PUSH1 9 JUMPI  PUSH1 1 PUSH1 2 SSTORE STOP JUMPDEST PUSH1 1 PUSH1 3 SSTORE STOP
     let p = vec![0x36, 0x60, 0x0a, 0x57, 0x60, 0x01, 0x60, 0x02, 0x55, 0x00, 0x5b, 0x60, 0x01, 0x60, 0x03, 0x55, 0x00];
     progs.push(("jumpi fallthrough", p.clone(), None, Some(2)));
@@ -118,6 +120,15 @@ fn c08_control_flow_programs() {
             witness("C05", "slots.only_accessed_slots.dead_code_executed", format!("{name}: {code:02x?}"), format!("slot {s} reported"), "only slots of EVM-reachable storage accesses".into());
         } }
         if let Some(s) = must { if !has_slot(&o, s) { witness("C08", "ctl.legal_transfer_followed", format!("{name}: {code:02x?}"), format!("slot {s} missing"), format!("slot {s}")); } }
+    }
+    // a jump into push data (complete or cut short) is an invalid jump: strict mode must report it
+    for (name, code) in [("JUMP into complete push data", vec![0x60u8, 0x04, 0x56, 0x60, 0x5b, 0x00]),
+                         ("JUMP into truncated push data", vec![0x60, 0x05, 0x56, 0x00, 0x7f, 0x5b, 0x60, 0x01]),
+                         ("JUMPI into truncated push data", vec![0x60, 0x01, 0x60, 0x07, 0x57, 0x00, 0x62, 0x5b, 0x00])] {
+        if let Out::Ok(_) = analyze(&code, false) {
+            witness("C08", "ctl.jump_into_push_data_is_refused", format!("{name}: {code:02x?}"), "strict analysis Ok".into(), "Err(InvalidJumpTarget)".into());
+            witness("C10", "dis.immediates_are_never_jump_destinations", format!("{name}: {code:02x?}"), "jump accepted".into(), "refused".into());
+        }
     }
     println!("CASES c08_programs {n}");
 }
